@@ -170,7 +170,7 @@ def build_side(w, side):
         from rasterio.crs import CRS
 
         crs = CRS.from_string(geo["crs"])
-        transform = Affine(*geo["transform"])
+        transform = Affine(*(geo.get("transform_right", geo["transform"]) if side == "right" else geo["transform"]))
     else:
         crs, transform = None, None
     ds.attrs = {"crs": crs, "transform": transform, "valid_pixels": 0, "no_data_mask": 1}
